@@ -28,7 +28,7 @@ package failsafe
 //@   modifies nothing
 //@ extfunc context.WithCancel
 //@   modifies nothing
-//@   ensures result_0 != nil && result_1 != nil && uf("ctxof", result_1) == result_0
+//@   ensures result_0 != nil && result_1 != nil && uf("ctxof", result_1) == result_0 && uf("ctxparent", result_0) == parent
 // calling a CancelFunc cancels its context
 //@ extfunc functype:context.CancelFunc
 //@   modifies canceled(uf("ctxof", self))
@@ -85,7 +85,7 @@ package failsafe
 //@   let c := ret(e.ctx.Err, 1) != nil
 //@   ensures [C08.retry.attribution+C15.cancel.reported] c && old(cellof(e.canceledResult, *common.PolicyResult)) != nil ==> result == old(cellof(e.canceledResult, *common.PolicyResult))
 //@   ensures [C08.retry.cancelled] c ==> result != nil && e.attempts.v == old(e.attempts.v) && e.retries.v == old(e.retries.v) && canceled(e.ctx)
-//@   ensures [C17.retry.counts+C07.retry_clears_the_recorded_cancel_result] !c ==> result == nil && e.attempts.v == old(e.attempts.v) + 1 && e.retries.v == old(e.retries.v) + 1 && cellof(e.canceledResult, *common.PolicyResult) == nil
+//@   ensures [C17.retry.counts+C07.retry_clears_the_recorded_cancel_result+C13.backoff_sees_every_retry+C02.retry_is_counted] !c ==> result == nil && e.attempts.v == old(e.attempts.v) + 1 && e.retries.v == old(e.retries.v) + 1 && cellof(e.canceledResult, *common.PolicyResult) == nil
 //@   modifies e.attempts.v, e.retries.v, e.attemptStartTime, *e.canceledResult, canceled(e.ctx), calls(e.ctx.Err)
 
 // ---------------------------------------------------------------------------------------------
@@ -171,7 +171,7 @@ package failsafe
 //@ func (*executionResult).record
 //@   requires e != nil && e.doneChan != nil && !closed(e.doneChan) && result != nil
 //@   ensures [C15.record.order] evtime("store:result", e) < evtime("store:done", e) && evtime("store:done", e) < evtime("close", e.doneChan)
-//@   ensures [C15.record.published] closed(e.doneChan) && atomval(e, "done", "bool") && cellof(atomval(e, "result", "ref"), *common.PolicyResult) == result
+//@   ensures [C15.record.published+C16.async.caller_gets_the_result_the_listeners_saw] closed(e.doneChan) && atomval(e, "done", "bool") && cellof(atomval(e, "result", "ref"), *common.PolicyResult) == result
 //@   modifies closed(e.doneChan), e.done, e.result
 
 //@ func (*executionResult).IsDone
@@ -228,6 +228,7 @@ package failsafe
 //@   let r := asref(result, *executionResult)
 //@   ensures [C15.async.repr] typeis(result, *executionResult) && fresh(r) && r.execution != nil && execWellFormed(r.execution) && r.execution.cancelFunc != nil && uf("ctxof", r.execution.cancelFunc) == r.execution.ctx && r.doneChan != nil && !closed(r.doneChan) && chancap(r.doneChan) == 1 && !atomval(r, "done", "bool") && atomval(r, "result", "ref") == nil
 //@   ensures [C15.async.one_runner] spawned() == 1
+//@   ensures [C11.entry.async_context_descends_from_the_executors+C08.entry.async_context_descends_from_the_executors+C18.entry.async_context_descends_from_the_executors] uf("ctxparent", r.execution.ctx) == e.ctx
 //@   modifies nothing
 
 // the runner: execute once, then publish its result (listeners have run inside execute)
@@ -241,7 +242,7 @@ package failsafe
 //@   oldlet nrec := 0
 //@   oncall (*executor).execute: nexec := nexec + 1; er := callresult
 //@   oncall (*executionResult).record: nrec := nrec + 1; recorded := callarg_1
-//@   ensures [C15.runner.same_path_as_sync] nexec == 1 && nrec == 1 && recorded == er
+//@   ensures [C15.runner.same_path_as_sync+C16.async.caller_gets_the_result_the_listeners_saw] nexec == 1 && nrec == 1 && recorded == er
 //@   modifies closed(result.doneChan), result.done, result.result, *
 
 // ---------------------------------------------------------------------------------------------
@@ -287,7 +288,7 @@ package failsafe
 //@   builder
 //@   requires e != nil
 //@   let c := asref(result, *executor)
-//@   ensures [C16.executor.copy_keeps_listeners+C01.executor.copy_keeps_policies] typeis(result, *executor) && fresh(c) && len(c.policies) == len(e.policies) && (forall j int :: 0 <= j && j < len(e.policies) ==> c.policies[j] == e.policies[j]) && c.onDone == e.onDone && c.onSuccess == e.onSuccess && c.onFailure == e.onFailure && c.ctx == ite(ctx != nil, ctx, e.ctx)
+//@   ensures [C16.executor.copy_keeps_listeners+C01.executor.copy_keeps_policies+C11.executor.context_is_the_given_one+C08.executor.context_is_the_given_one+C18.executor.context_is_the_given_one] typeis(result, *executor) && fresh(c) && len(c.policies) == len(e.policies) && (forall j int :: 0 <= j && j < len(e.policies) ==> c.policies[j] == e.policies[j]) && c.onDone == e.onDone && c.onSuccess == e.onSuccess && c.onFailure == e.onFailure && c.ctx == ite(ctx != nil, ctx, e.ctx)
 //@   modifies nothing
 
 // executor construction and listener registration: each setter changes its own listener only
@@ -358,8 +359,9 @@ package failsafe
 //@ func (*executor).executeSync
 //@   requires e != nil && fn != nil && e.ctx != nil && (forall j int :: 0 <= j && j < len(e.policies) ==> e.policies[j] != nil)
 //@   oldlet nx := 0
-//@   oncall (*executor).execute: nx := nx + 1; er := callresult; xfn := callarg_1; xwith := callarg_3
+//@   oncall (*executor).execute: nx := nx + 1; er := callresult; xfn := callarg_1; xexec := callarg_2; xwith := callarg_3
 //@   ensures [C01.entry.sync_core+C15.entry.sync_core] nx == 1 && xfn == fn && xwith == withExec && result_0 == er.Result && result_1 == er.Error
+//@   ensures [C11.entry.context_is_the_executors+C08.entry.context_is_the_executors+C18.entry.context_is_the_executors] xexec != nil && xexec.ctx == e.ctx
 //@   havoc
 //@   modifies *
 //@ func (*executor).Run
